@@ -1,7 +1,7 @@
 """C16 — mem classification and bidi checks equal their per-character definitions."""
 from mirlib import *
 from ranges import *
-import scan, r_kernel
+import scan, r_kernel, r_lane
 
 MANIFEST = {
     'category': 'other',
@@ -21,7 +21,10 @@ MANIFEST = {
             'is_utf16_bidi_impl, is_str_latin1_bool_impl and check_utf16_for_latin1_and_bidi_impl return a whole-buffer verdict (true / false / '
             'Latin1 / LeftToRight / the last part\'s own verdict) only after every part of the as_chunks tree (quad strides, strides, tail) was '
             'walked to exhaustion in buffer order — early exits are exactly the returns inside an iteration or repeating an early-exit value. '
-            'SIMD lane arithmetic inside the vector predicates is not decided.',
+            '(D6, R-LANE, simd-accel) the vector predicates are decided lane-wise: is_u16x8_bidi returns false early only when every lane '
+            'is proven outside the right-to-left code-unit set and otherwise returns any(M) with the exact lane set of M equal to that set '
+            '(0590-08FF, 200F, 202B, 202E, 2067, FB1D-FDFF, FE70-FEFE, D802-D803, D83A-D83B); simd_is_ascii / simd_is_basic_latin / simd_is_latin1 / '
+            'simd_is_str_latin1 denote exactly 00-7F / 00-7F / 00-FF / 00-C3. Vendor intrinsic and core::simd semantics are trusted.',
     'note': 'Trusted: rustc MIR, mirx, rule library, the documented RTL block list transcribed in rules/p_c16.py, core iterator semantics (all/any/reduce/next).',
     'technique': 'abstract interpretation on rustc MIR: exact interval sets over one scalar input; path-sensitive interval products per byte with a distance-to-end zone and fixpoint invariants for the byte automata; control-dependence shape rules',
 }
@@ -291,5 +294,7 @@ def run(rep, facts, tier):
         d3_two_stage(rep, f, c, 'mem::check_str_for_latin1_and_bidi', 'mem::is_str_latin1_impl', 'mem::is_str_bidi')
         d3_utf16(rep, f, c)
         r_kernel.run(rep, f, c, 'R-KERNEL', ['classify'], stride=False)
+        if c.startswith('simd'):
+            r_lane.run(rep, f, c)
         scan.run_specs(rep, f, c, 'R-SCAN', ['mem::is_utf8_bidi', 'mem::is_str_bidi', 'mem::is_utf8_latin1_impl', 'mem::is_str_latin1_impl'])
     return ('other', MANIFEST['text'], ['documented RTL list (mem::is_char_bidi doc comment) transcribed as RTL_CHAR'])
